@@ -36,52 +36,107 @@ structure HTables where
   vLit32 : Nat
   vExtInstInteger : Nat
 
-/-- `name` applied to `args` (already parsed by shape); `none` = not a hand-written method / wrong arguments -/
+/-- the hand-written methods by name: `name` applied to `args` (already parsed by shape); `none` = wrong arguments -/
+def handTable (H : HTables) : List (String × (List Arg → Option Call)) :=
+  [
+   ("id", fun args => match args with
+      | [] => some .id
+      | _ => none),
+   ("set_version", fun args => match args with
+      | [.n a, .n b] => some (.setVersion a b)
+      | _ => none),
+   ("begin_function", fun args => match args with
+      | [.n rt, .optN fid, .n control, .n ftype] => some (.beginFunction rt fid control ftype)
+      | _ => none),
+   ("end_function", fun args => match args with
+      | [] => some .endFunction
+      | _ => none),
+   ("function_parameter", fun args => match args with
+      | [.n rt] => some (.functionParameter rt)
+      | _ => none),
+   ("begin_block", fun args => match args with
+      | [.optN l] => some (.beginBlock l)
+      | _ => none),
+   ("begin_block_no_label", fun args => match args with
+      | [.optN l] => some (.beginBlockNoLabel l)
+      | _ => none),
+   ("select_function", fun args => match args with
+      | [.optN i] => some (.selectFunction i)
+      | _ => none),
+   ("select_block", fun args => match args with
+      | [.optN i] => some (.selectBlock i)
+      | _ => none),
+   ("pop_instruction", fun args => match args with
+      | [] => some .popInstruction
+      | _ => none),
+   ("capability", fun args => match args with
+      | [.n c] => some (.moduleInst 0 H.opCapability none .none [.w H.vCapability c])
+      | _ => none),
+   ("extension", fun args => match args with
+      | [.str b] => some (.moduleInst 1 H.opExtension none .none [.s b])
+      | _ => none),
+   ("ext_inst_import", fun args => match args with
+      | [.str b] => some (.moduleInst 2 H.opExtInstImport none .fresh [.s b])
+      | _ => none),
+   ("memory_model", fun args => match args with
+      | [.n a, .n m] =>  some (.moduleInst 3 H.opMemoryModel none .none [.w H.vAddressingModel a, .w H.vMemoryModel m])
+      | _ => none),
+   ("entry_point", fun args => match args with
+      | [.n model, .n ep, .str name, .ns iface] =>  some (.moduleInst 4 H.opEntryPoint none .none ([.w H.vExecutionModel model, .w H.vIdRef ep, .s name] ++ iface.map (.w H.vIdRef)))
+      | _ => none),
+   ("execution_mode", fun args => match args with
+      | [.n ep, .n mode, .ns params] =>  some (.moduleInst 5 H.opExecutionMode none .none ([.w H.vIdRef ep, .w H.vExecutionMode mode] ++ params.map (.w H.vLit32)))
+      | _ => none),
+   ("execution_mode_id", fun args => match args with
+      | [.n ep, .n mode, .ns params] =>  some (.moduleInst 5 H.opExecutionModeId none .none ([.w H.vIdRef ep, .w H.vExecutionMode mode] ++ params.map (.w H.vIdRef)))
+      | _ => none),
+   ("ext_inst", fun args => match args with
+      | [.n rt, .optN rid, .n set, .n inst, .ops ops] =>  some (.blockInst .end_ H.opExtInst (some rt) (.given rid) ([.w H.vIdRef set, .w H.vExtInstInteger inst] ++ ops))
+      | _ => none),
+   ("line", fun args => match args with
+      | [.n f, .n l, .n c] => some (.lineLike H.opLine [.w H.vIdRef f, .w H.vLit32 l, .w H.vLit32 c])
+      | _ => none),
+   ("no_line", fun args => match args with
+      | [] => some (.lineLike H.opNoLine [])
+      | _ => none),
+   ("decoration_group", fun args => match args with
+      | [] => some (.moduleInst 9 H.opDecorationGroup none .fresh [])
+      | _ => none),
+   ("string", fun args => match args with
+      | [.str b] => some (.moduleInst 6 H.opString none .fresh [.s b])
+      | _ => none),
+   ("type_forward_pointer", fun args => match args with
+      | [.n p, .n sc] =>  some (.moduleInst 10 H.opTypeForwardPointer none .none [.w H.vIdRef p, .w H.vStorageClass sc])
+      | _ => none),
+   ("type_pointer", fun args => match args with
+      | [.optN rid, .n sc, .n pointee] =>  some (.typeRequest H.opTypePointer rid [.w H.vStorageClass sc, .w H.vIdRef pointee])
+      | _ => none),
+   ("type_opaque", fun args => match args with
+      | [.str b] => some (.moduleInst 10 H.opTypeOpaque none .fresh [.s b])
+      | _ => none),
+   ("constant_bit32", fun args => match args with
+      | [.n rt, .n v] => some (.moduleInst 10 H.opConstant (some rt) .fresh [.w H.vLit32 v])
+      | _ => none),
+   ("constant_bit64", fun args => match args with
+      | [.n rt, .n v] => some (.moduleInst 10 H.opConstant (some rt) .fresh [.q v])
+      | _ => none),
+   ("spec_constant_bit32", fun args => match args with
+      | [.n rt, .n v] => some (.moduleInst 10 H.opSpecConstant (some rt) .fresh [.w H.vLit32 v])
+      | _ => none),
+   ("spec_constant_bit64", fun args => match args with
+      | [.n rt, .n v] => some (.moduleInst 10 H.opSpecConstant (some rt) .fresh [.q v])
+      | _ => none),
+   ("variable", fun args => match args with
+      | [.n rt, .optN rid, .n sc, .optN init] =>  some (.varUndef H.opVariable rt rid ([.w H.vStorageClass sc] ++ (init.map (.w H.vIdRef)).toList))
+      | _ => none),
+   ("undef", fun args => match args with
+      | [.n rt, .optN rid] => some (.varUndef H.opUndef rt rid [])
+      | _ => none)]
+
 def handCall (H : HTables) (name : String) (args : List Arg) : Option Call :=
-  match name, args with
-  | "id", [] => some .id
-  | "set_version", [.n a, .n b] => some (.setVersion a b)
-  | "begin_function", [.n rt, .optN fid, .n control, .n ftype] => some (.beginFunction rt fid control ftype)
-  | "end_function", [] => some .endFunction
-  | "function_parameter", [.n rt] => some (.functionParameter rt)
-  | "begin_block", [.optN l] => some (.beginBlock l)
-  | "begin_block_no_label", [.optN l] => some (.beginBlockNoLabel l)
-  | "select_function", [.optN i] => some (.selectFunction i)
-  | "select_block", [.optN i] => some (.selectBlock i)
-  | "pop_instruction", [] => some .popInstruction
-  | "capability", [.n c] => some (.moduleInst 0 H.opCapability none .none [.w H.vCapability c])
-  | "extension", [.str b] => some (.moduleInst 1 H.opExtension none .none [.s b])
-  | "ext_inst_import", [.str b] => some (.moduleInst 2 H.opExtInstImport none .fresh [.s b])
-  | "memory_model", [.n a, .n m] =>
-    some (.moduleInst 3 H.opMemoryModel none .none [.w H.vAddressingModel a, .w H.vMemoryModel m])
-  | "entry_point", [.n model, .n ep, .str name, .ns iface] =>
-    some (.moduleInst 4 H.opEntryPoint none .none
-      ([.w H.vExecutionModel model, .w H.vIdRef ep, .s name] ++ iface.map (.w H.vIdRef)))
-  | "execution_mode", [.n ep, .n mode, .ns params] =>
-    some (.moduleInst 5 H.opExecutionMode none .none
-      ([.w H.vIdRef ep, .w H.vExecutionMode mode] ++ params.map (.w H.vLit32)))
-  | "execution_mode_id", [.n ep, .n mode, .ns params] =>
-    some (.moduleInst 5 H.opExecutionModeId none .none
-      ([.w H.vIdRef ep, .w H.vExecutionMode mode] ++ params.map (.w H.vIdRef)))
-  | "ext_inst", [.n rt, .optN rid, .n set, .n inst, .ops ops] =>
-    some (.blockInst .end_ H.opExtInst (some rt) (.given rid) ([.w H.vIdRef set, .w H.vExtInstInteger inst] ++ ops))
-  | "line", [.n f, .n l, .n c] => some (.lineLike H.opLine [.w H.vIdRef f, .w H.vLit32 l, .w H.vLit32 c])
-  | "no_line", [] => some (.lineLike H.opNoLine [])
-  | "decoration_group", [] => some (.moduleInst 9 H.opDecorationGroup none .fresh [])
-  | "string", [.str b] => some (.moduleInst 6 H.opString none .fresh [.s b])
-  | "type_forward_pointer", [.n p, .n sc] =>
-    some (.moduleInst 10 H.opTypeForwardPointer none .none [.w H.vIdRef p, .w H.vStorageClass sc])
-  | "type_pointer", [.optN rid, .n sc, .n pointee] =>
-    some (.typeRequest H.opTypePointer rid [.w H.vStorageClass sc, .w H.vIdRef pointee])
-  | "type_opaque", [.str b] => some (.moduleInst 10 H.opTypeOpaque none .fresh [.s b])
-  | "constant_bit32", [.n rt, .n v] => some (.moduleInst 10 H.opConstant (some rt) .fresh [.w H.vLit32 v])
-  | "constant_bit64", [.n rt, .n v] => some (.moduleInst 10 H.opConstant (some rt) .fresh [.q v])
-  | "spec_constant_bit32", [.n rt, .n v] => some (.moduleInst 10 H.opSpecConstant (some rt) .fresh [.w H.vLit32 v])
-  | "spec_constant_bit64", [.n rt, .n v] => some (.moduleInst 10 H.opSpecConstant (some rt) .fresh [.q v])
-  | "variable", [.n rt, .optN rid, .n sc, .optN init] =>
-    some (.varUndef H.opVariable rt rid ([.w H.vStorageClass sc] ++ (init.map (.w H.vIdRef)).toList))
-  | "undef", [.n rt, .optN rid] => some (.varUndef H.opUndef rt rid [])
-  | _, _ => none
+  match (handTable H).find? (fun p => p.1 == name) with
+  | some p => p.2 args
+  | none => none
 
 /-- argument shapes of the hand-written methods (for the driver's parser) -/
 def handShapes : List (String × List PType) :=
